@@ -17,10 +17,14 @@
      reports by correspondence) the reported pair is (locations substituted, substitutions performed) for every setting;
      every location takes at most what it can match and at most the loop allowance, the same allowance at every
      location; a count limit is respected; locations <= substitutions.
+   - (models/SlotEscape.v over the string alphabet and the literal scanners of models/StrRepr.v; tied to the text real
+     sub() writes by correspondence) a capture written into a slot INSIDE a string constant of the template - quotes and
+     backslashes escaped, non-printables as their unicode escapes - reads back as the capture's source, in single- and
+     triple-quoted template strings of either quote kind, whatever stands in front of and behind the slot.
    NOT PROVED: the matcher (C17), slice and multi-node captures, the slot discovery per node type, text preservation.
    Decided by the pure-AST reference oracle of py/props/C18.py (partial). *)
 From Coq Require Import List Bool Arith.
-From PF Require Import models.Subst proofs.SubstProofs models.SubLoop proofs.SubLoopProofs.
+From PF Require Import models.Subst proofs.SubstProofs models.SubLoop proofs.SubLoopProofs models.StrRepr models.SlotEscape proofs.SlotEscapeProofs.
 From Coq Require Import ZArith.
 Import ListNotations.
 
@@ -63,6 +67,22 @@ Theorem C18_locations_le_substitutions : forall locs l0 count0 cbs, (0 <= count0
   (fst (subn_counts locs l0 count0 cbs) <= Z.of_nat (snd (subn_counts locs l0 count0 cbs)))%Z.
 Proof. exact unique_le_total. Qed.
 Print Assumptions C18_locations_le_substitutions.
+
+(* ---- slots inside string constants of the template (models/SlotEscape.v) ---- *)
+Theorem C18_string_slot_reads_back_in_triple_quoted_template : forall q s T, is_quote q = true -> forallb plain s = true ->
+  scan q (slot_escape s ++ T) = option_map (app s) (scan q T).
+Proof. exact slot_reads_back_in_triple_quoted. Qed.
+Print Assumptions C18_string_slot_reads_back_in_triple_quoted_template.
+
+Theorem C18_string_slot_reads_back_in_single_quoted_template : forall q s T, is_quote q = true -> forallb plain s = true ->
+  scan1 q (slot_escape s ++ T) = option_map (app s) (scan1 q T).
+Proof. exact slot_reads_back_in_single_quoted. Qed.
+Print Assumptions C18_string_slot_reads_back_in_single_quoted_template.
+
+Theorem C18_string_slot_alone_is_the_capture_source : forall q s, is_quote q = true -> forallb plain s = true ->
+  decode (triple q ++ slot_escape s ++ triple q) = Some s /\ decode1 (q :: slot_escape s ++ [q]) = Some s.
+Proof. exact slot_alone_decodes. Qed.
+Print Assumptions C18_string_slot_alone_is_the_capture_source.
 
 (* non-vacuity: swap the operands of every outermost node labelled 1:  1(1(a,b), c) -> 1(c, 1(a,b)) non-nested,
    1(c, 1(b,a)) nested *)
